@@ -37,6 +37,10 @@ pub struct Case {
     pub crop: Option<(usize, usize, usize, usize)>,
     /// background handed to the handler (0xRRGGBBAA)
     pub bg: Option<u32>,
+    /// other same-sized crops of the same buffer (window shifted by these offsets) that are drawn
+    /// on the handler first; they must not influence what the image under test decodes to
+    #[serde(default)]
+    pub warm: Vec<(i8, i8)>,
 }
 
 fn rgba(px: u32) -> RGBA {
@@ -264,12 +268,20 @@ impl Prop for C12 {
                 *slot = u32::from_be_bytes([c[0], c[1], c[2], a]);
             }
         }
+        let warm = if window.is_some() {
+            (0..rng.range(0, 2))
+                .map(|_| (rng.range(0, 12) as i8 - 6, rng.range(0, 8) as i8 - 4))
+                .collect()
+        } else {
+            Vec::new()
+        };
         Case {
             w,
             h,
             px,
             crop: window,
             bg,
+            warm,
         }
     }
 
@@ -291,7 +303,7 @@ impl Prop for C12 {
         ));
         let img = match case.crop {
             Some(_) => base.crop(r0..r1, c0..c1),
-            None => base,
+            None => base.clone(),
         };
         ensure!(
             img.height() == ih && img.width() == iw,
@@ -304,6 +316,23 @@ impl Prop for C12 {
         ctx.feat("cases");
         let bg = case.bg.map(rgba);
         let mut handler = SixelImageHandler::new(bg);
+        // other windows of the same buffer drawn first on the same handler
+        for (dr, dc) in case.warm.iter() {
+            let (nr0, nc0) = (r0 as isize + *dr as isize, c0 as isize + *dc as isize);
+            if (*dr, *dc) == (0, 0) || nr0 < 0 || nc0 < 0 {
+                continue;
+            }
+            let (nr0, nc0) = (nr0 as usize, nc0 as usize);
+            if nr0 + ih > case.h || nc0 + iw > case.w {
+                continue;
+            }
+            let other = base.crop(nr0..nr0 + ih, nc0..nc0 + iw);
+            let mut sink: Vec<u8> = Vec::new();
+            handler
+                .draw(&mut sink, &other, Position::new(1, 1))
+                .map_err(|e| Fail::new("draw:error", format!("draw returned {e}")))?;
+            ctx.feat("handler.other-crop-of-same-buffer-drawn-first");
+        }
         let mut out: Vec<u8> = Vec::new();
         handler
             .draw(&mut out, &img, Position::new(0, 0))
@@ -529,6 +558,7 @@ impl Prop for C12 {
                 px,
                 crop: None,
                 bg: case.bg,
+                warm: Vec::new(),
             });
             return out;
         }
